@@ -266,6 +266,7 @@ pub struct World {
     /// `shutdown()` of the application's services parks on a gate
     pub slow_shutdown: Cell<bool>,
     /// what the sink's publish-ack callback was called with, in call order: (pid, code, sig, disconnected)
+    pub ack_props: Cell<Option<(u16, u16)>>,
     pub cb_log: RefCell<Vec<(u16, u8, u64, bool)>>,
     pub cb_wakers: RefCell<Vec<Waker>>,
 }
@@ -294,6 +295,7 @@ impl World {
             ready_fail_after: Cell::new(None),
             ready_fail_noted: Cell::new(false),
             slow_shutdown: Cell::new(false),
+            ack_props: Cell::new(None),
             cb_log: RefCell::new(Vec::new()),
             cb_wakers: RefCell::new(Vec::new()),
         })
